@@ -561,6 +561,10 @@ func (s *lockingStream) Gen(r *tr.Rng) *tr.Op {
 	// one block
 	s.height++
 	s.now += int64(tr.Pick(r, 0, 1, 5, 5, 7, 30)) * 1e9
+	if r.Chance(35) {
+		// block times carry nanoseconds: the delays are exact to the nanosecond, not to the second
+		s.now += int64(tr.Pick(r, 1, 400000000, 900000000, 999999999, 123456789, 50000000))
+	}
 	if r.Chance(2) {
 		// the chain stood still for a long time (halt, restart): every pending unlock matures in one block
 		s.now += s.params.exit + 3600e9
